@@ -103,6 +103,91 @@ class Checker:
     def unk(self, rule, where, construct, what, note):
         self.run.ob(rule, where, construct, what, UNK, note=note)
 
+    # --------------------------------------------------------------- equal values in different forms
+    def forms(self, rule, where, construct, scenario, forms, what, oracle=None, overrides=None):
+        """`scenario(ev, v)` is evaluated for each (label, value) of `forms`, all of which denote the same input; the outcomes
+        (exception class, or class / metadata terms / shapes of the result) must agree with that of the first form."""
+        outs = []
+        for label, v in forms:
+            ev = self.evaluator(oracle=oracle, overrides=overrides)
+            try:
+                outs.append((label, value_signature(scenario(ev, v))))
+            except Raised as e:
+                outs.append((label, ("raises", e.exc_name)))
+            except (Unsupported, DimensionError, RecursionError) as e:
+                self.run.ob(rule, where, f"{construct} [{label}]", "evaluates", UNK, note=f"outside the analyser's vocabulary: {e}")
+                outs.append((label, None))
+            for f in ev.touched:
+                self.run.analysed["functions"].add(f)
+        ref_label, ref = outs[0]
+        if ref is None:
+            return
+        for label, got in outs[1:]:
+            if got is None:
+                continue
+            self.run.ob(rule, where, f"{construct} [{label} vs {ref_label}]", what, OK if got == ref else BAD,
+                        found=_sig_diff(ref, got), expected="identical outcome", nontrivial=True)
+
+    # --------------------------------------------------------------- number types
+    def number_types(self, rule, where, construct, scenario, kinds=("int64", "int32"), oracle=None, overrides=None):
+        """Rule NT: a result does not depend on whether a number was handed over as a Python number or as a NumPy scalar.
+
+        `scenario(ev, mk)` evaluates one call, building every caller-supplied number with `mk(expr)`.  It is evaluated once
+        with Python numbers and once per NumPy scalar type in `kinds` (numpy.int64 is not an int, numpy.float32 is not a
+        float: a branch on the Python type takes them elsewhere); the outcomes (exception class, or class, metadata terms and
+        shapes of the result) are compared."""
+        from .extapi import np_scalar
+
+        def outcome(mk):
+            ev = self.evaluator(oracle=oracle, overrides=overrides)
+            try:
+                v = scenario(ev, mk)
+            except Raised as e:
+                return ("raises", e.exc_name), ev
+            return value_signature(v), ev
+        try:
+            ref, ev0 = outcome(lambda e: Num(sp.sympify(e)))
+        except (Unsupported, DimensionError, RecursionError) as e:
+            self.run.ob(rule, where, construct, "evaluates with Python numbers", UNK, note=f"outside the analyser's vocabulary: {e}")
+            return
+        for f in ev0.touched:
+            self.run.analysed["functions"].add(f)
+        for k in kinds:
+            try:
+                got, _ = outcome(lambda e, k=k: np_scalar(e, k))
+            except (Unsupported, DimensionError, RecursionError) as e:
+                self.run.ob(rule, where, f"{construct} [numpy.{k}]", "evaluates with NumPy scalars", UNK, note=f"outside the analyser's vocabulary: {e}")
+                continue
+            self.run.ob(rule, where, f"{construct} [numpy.{k}]",
+                        "the outcome for a NumPy scalar is the outcome for the equal Python number", OK if got == ref else BAD,
+                        found=_sig_diff(ref, got), expected="identical outcome", nontrivial=True)
+
+
+def value_signature(v):
+    """A comparable description of an evaluator value: class, metadata terms, shapes (not dtypes of scalars, not tags)."""
+    if isinstance(v, ObjV):
+        return ("obj", v.cls.name, tuple(sorted((k, value_signature(x)) for k, x in v.attrs.items())))
+    if isinstance(v, Num):
+        shp = tuple(str(d) for d in v.shape) if v.shape else None
+        return ("num", v.kind, str(v.expr), shp)
+    if isinstance(v, TupleV):
+        return ("tuple", tuple(value_signature(x) for x in v.items))
+    if isinstance(v, DictV):
+        return ("dict", tuple(sorted((str(k), value_signature(x)) for k, x in v.d.items())))
+    if isinstance(v, StrV):
+        return ("str", v.s)
+    return ("other", repr(v)[:200])
+
+
+def _sig_diff(a, b):
+    if a == b:
+        return "identical"
+    if a[0] != b[0] or a[0] != "obj":
+        return f"Python number: {str(a)[:160]}; NumPy scalar: {str(b)[:160]}"
+    da, db = dict(a[2]), dict(b[2])
+    diffs = [f"{k}: {str(da.get(k))[:120]} vs {str(db.get(k))[:120]}" for k in sorted(set(da) | set(db)) if da.get(k) != db.get(k)]
+    return ("class " + a[1] + " vs " + b[1] + "; " if a[1] != b[1] else "") + "; ".join(diffs)[:400]
+
 
 def FR():
     return Frame(None, None, None, {}, 0)
